@@ -1327,8 +1327,16 @@ def _world_tasks_via_config(self, spec):
         raise AssertionError(c['kind'])
     tms = {}
 
+    # a second grid in another SRS, listed FIRST in the seed section: every task gets the configured coverage transformed into
+    # its own grid's SRS (not whatever an earlier grid made of it); only the tasks of 'grid' are run and judged
+    from mapproxy.grid import tile_grid
+    other_srs = {'EPSG:3857': 'EPSG:25832', 'EPSG:900913': 'EPSG:25832', 'EPSG:25832': 'EPSG:3857'}.get(spec['grid']['srs'], 'EPSG:3857')
+    grid2 = tile_grid(srs=other_srs, bbox=(200000.0, 5200000.0, 900000.0, 6100000.0)) if other_srs == 'EPSG:25832' else tile_grid(srs=other_srs)
+    gi2 = GridInfo(grid2, spec['meta_size'])
+    tms2 = {}
+
     class FakeSeedingConf(object):
-        grids = {'grid': world.grid}
+        grids = {'grid': world.grid, 'grid2': grid2}
 
         def __init__(self, cov):
             self._cov = cov
@@ -1341,18 +1349,28 @@ def _world_tasks_via_config(self, spec):
                 tm = RecTileManager(world.grid, world.gi, spec)
                 tm.cache = _FakeCache()
                 tms[name] = tm
-            return {'grid': tms[name]}
+                tm2 = RecTileManager(grid2, gi2, spec)
+                tm2.cache = _FakeCache()
+                tms2[name] = tm2
+            return {'grid2': tms2[name], 'grid': tms[name]}
     names = []
     for t in spec['tasks']:
         if t['name'] not in names:
             names.append(t['name'])
     for nm in names:
         ts = [t for t in spec['tasks'] if t['name'] == nm]
-        conf = {'caches': [t['cache'] for t in ts], 'levels': list(ts[0]['levels'])}
+        conf = {'caches': [t['cache'] for t in ts], 'levels': list(ts[0]['levels']), 'grids': ['grid2', 'grid']}
         if ts[0]['coverage']['kind'] != 'none':
             conf['coverages'] = ['cov']
         sc = SeedConfiguration(nm, conf, FakeSeedingConf(ts[0]['coverage']))
-        made = list(sc.seed_tasks())
+        try:
+            made = [t_ for t_ in sc.seed_tasks() if t_.md['grid_name'] == 'grid']
+        except Exception as ex:
+            # (levels beyond the second grid, coverage not transformable into its SRS): fall back to the one-grid section
+            self.run_note = 'second grid dropped: %s' % type(ex).__name__
+            conf['grids'] = ['grid']
+            sc = SeedConfiguration(nm, conf, FakeSeedingConf(ts[0]['coverage']))
+            made = list(sc.seed_tasks())
         if len(made) != len(ts):
             raise RuntimeError('SeedConfiguration produced %d tasks for %d caches' % (len(made), len(ts)))
         self.tasks.extend(made)
